@@ -856,6 +856,7 @@ class PandasModelBase(
                         + str(opk)
                     )
         res["_data_table_temp_col"] = 1
+        group_dtypes = {g: res[g].dtype for g in op.group_by}
         if len(op.group_by) > 0:
             res = res.groupby(op.group_by, observed=True, dropna=False)
         if len(op.ops) > 0:
@@ -898,6 +899,10 @@ class PandasModelBase(
         if res.shape[0] > 0:
             if len(missing_group_cols) != 0:
                 raise ValueError("Missing column groups")
+            for g, g_dtype in group_dtypes.items():
+                if res[g].dtype != g_dtype:
+                    # a key column whose only value is null comes back from groupby as float NaN
+                    res[g] = res[g].astype(g_dtype)
         else:
             for g in missing_group_cols:
                 res[g] = []
